@@ -16,6 +16,12 @@ CLAIMED = {
  "C13": dict(
    text="Path-sensitive exploration (with flag and pushed-vector pruning) of cli::check/echo/tokenize/create_project: Err returned iff a diagnostic was emitted / an Err arm taken / a non-empty diagnostic list seen; OK printed iff Ok returned; check's verdict is semantic()'s inspected Result; term::emit's Result must be inspected; main returns each command's Result unchanged. Directory/argument-order equivalence is not decided.",
    design="3 C13", technique="static analysis: path-state exploration over MIR CFG, result-use analysis"),
+ "C01": dict(
+   text="Grammar-shape analysis of the PEG (reader cross-checked against rustc's rule set on every run) plus MIR: no labelled capture is unused (rustc's forced unused_variables lint mapped onto label positions), no value-returning nonterminal is used unlabelled in an action sequence, the precedence! block equals the Annex B.3.1 tiers/associativity/operator constants/operand order, keyword-token -> DSL-constant alternatives agree by name, list helpers do not demand a trailing separator, no placeholder Id/Type constants escape into the tree. Decides these necessary conditions of faithfulness for all inputs; tree equality with an independent reference is not decided.",
+   design="3 C01", technique="static analysis: grammar reader for the PEG macro input, forced rustc lint, MIR escape analysis, table comparison against Annex B"),
+ "C02": dict(
+   text="Registry completeness of the rule and transform tables read from MIR function constants; analyze() applies semantic to resolve_types' result and returns it; each module constructs exactly its published Problem codes and every code is documented; traversal reachability over the Visitor/recurse_visit graph extracted from MIR (dead targets, cut-off overrides, blind containment edges above rule targets); per-scope visitor state is reset at scope boundaries (tables cleared, Option contexts reset on every path). The predicates of the rules themselves are not decided.",
+   design="3 C02", technique="static analysis: function-constant tables, call-graph over trait dispatch, type-containment vs traversal graph comparison, typestate on visitor fields"),
  "C03": dict(
    text="Path-sensitive accumulator analysis over every product function that owns a Vec<Diagnostic> (local, visitor field or tuple part): diagnostics that may have been collected must be read or moved out before Ok is returned; every name-keyed HashMap insert of a declaration in the analyzer must inspect the returned Option or be guarded by a failed lookup; every declaration kind parked by name in the topological re-assembly must also be a graph node; the tokenizer's diagnostics gate the parse. Decides these masking mechanisms for all file sets; companion-independence of individual rule predicates is not decided.",
    design="3 C03", technique="static analysis: typestate dataflow over MIR CFG (accumulator Clean/Dirty/Checked/Moved), result-use analysis, cross-check of match arms against visitor overrides"),
